@@ -13,6 +13,10 @@ import (
 	"strings"
 	"testing"
 
+	"github.com/ethereum/go-ethereum/common"
+	"github.com/ethereum/go-ethereum/common/hexutil"
+	"github.com/ethereum/go-ethereum/crypto"
+
 	clienttypes "github.com/teleport-network/teleport/x/xibc/core/client/types"
 	"github.com/teleport-network/teleport/x/xibc/core/host"
 	packettypes "github.com/teleport-network/teleport/x/xibc/core/packet/types"
@@ -20,6 +24,8 @@ import (
 
 type pktWeights struct {
 	send, relay, ackRelay, replay, mutateRecv, mutateAck, ackConflict, commit, update int
+	evm int // traffic with and forgeries against the BSC / ETH secured counterparties
+	restart int // genesis export -> import restarts
 	plant int // planted high-sequence packets (commitment injected with the keeper setter)
 	cbErr int // percentage of sends whose destination callback makes CallPacket return an error
 }
@@ -134,11 +140,26 @@ func (g *pktGen) setup(variant int) {
 			w.createClient(c, o.name, o, delay)
 		}
 	}
+	// EVM-secured counterparties of chain 0: a BSC and an ETH light client (names with upper-case letters in the
+	// mixed-case worlds)
+	if g.wt.evm > 0 {
+		bscName, ethName := "bsc-main", "eth-main"
+		if pktHasUpper(w.chains[0].name) {
+			bscName, ethName = "BSC-Main", "Eth-Main"
+		}
+		w.addEvm(w.chains[0], "bsc", bscName)
+		w.addEvm(w.chains[0], "eth", ethName)
+	}
 	for _, c := range w.chains {
 		var others []string
 		for _, o := range w.chains {
 			if o != c {
 				others = append(others, o.name)
+			}
+		}
+		if c == w.chains[0] {
+			for _, ev := range w.evms {
+				others = append(others, ev.name)
 			}
 		}
 		w.register(c, 0, others)
@@ -175,7 +196,7 @@ func (g *pktGen) maybeCommit(c *pktChain) {
 func (g *pktGen) step() {
 	g.steps++
 	wt := g.wt
-	switch g.pick(wt.send, wt.relay, wt.ackRelay, wt.replay, wt.mutateRecv, wt.mutateAck, wt.ackConflict, wt.commit, wt.update, wt.plant) {
+	switch g.pick(wt.send, wt.relay, wt.ackRelay, wt.replay, wt.mutateRecv, wt.mutateAck, wt.ackConflict, wt.commit, wt.update, wt.plant, wt.restart, wt.evm) {
 	case 0:
 		g.doSend()
 	case 1:
@@ -201,6 +222,10 @@ func (g *pktGen) step() {
 		}
 	case 9:
 		g.doPlant()
+	case 10:
+		g.doRestart()
+	case 11:
+		g.doEvm()
 	}
 }
 
@@ -321,7 +346,7 @@ func (g *pktGen) doRelay() {
 	if out.ok {
 		s.recvd = true
 		s.ackBz = out.ackBz
-		rec := &pktRecvRec{chain: s.dst, packet: s.bz, proof: proof, height: height, signer: signer}
+		rec := &pktRecvRec{chain: s.dst, packet: s.bz, proof: proof, height: height, signer: signer, epoch: s.dst.restarts}
 		s.recvMsg = rec
 		g.accRecv = append(g.accRecv, rec)
 		w.r.Nontrivial("recv:" + s.p.SrcChain + ">" + s.p.DstChain + ":" + fmt.Sprint(s.p.Sequence))
@@ -408,13 +433,28 @@ func pktReencode(bz []byte, kind int) []byte {
 	}
 }
 
-func (g *pktGen) doReplay() {
+func (g *pktGen) doReplay() { g.doReplayOn(nil) }
+
+// doReplayOn replays an accepted receive (of chain `on` if given and it has any).
+func (g *pktGen) doReplayOn(on *pktChain) {
 	w := g.w
 	if len(g.accRecv) == 0 {
 		g.doRelay()
 		return
 	}
 	rec := g.accRecv[g.rng.Intn(len(g.accRecv))]
+	if on != nil {
+		var mine []*pktRecvRec
+		for _, r := range g.accRecv {
+			if r.chain == on {
+				mine = append(mine, r)
+			}
+		}
+		if len(mine) == 0 {
+			return
+		}
+		rec = mine[g.rng.Intn(len(mine))]
+	}
 	var orig packettypes.Packet
 	if orig.ABIDecode(rec.packet) != nil {
 		return
@@ -466,8 +506,45 @@ func (g *pktGen) doReplay() {
 		w.commit(rec.chain)
 		tag = "replay-later-block"
 	}
-	w.recv(rec.chain, packet, proof, height, signer, tag)
+	out := w.recv(rec.chain, packet, proof, height, signer, tag)
+	if rec.chain.restarts > rec.epoch {
+		if out.ok {
+			w.r.Count("recv.replay.after-restart.ok")
+		} else {
+			w.r.Count("recv.replay.after-restart.err")
+		}
+	}
 	g.maybeCommit(rec.chain)
+}
+
+// doRestart: genesis export -> import restart of a random chain, followed by replays / duplicate acks on it.
+func (g *pktGen) doRestart() {
+	w := g.w
+	c := w.chains[g.rng.Intn(3)]
+	if g.rng.Intn(2) == 0 {
+		w.commit(c) // restarts happen at block boundaries as well as in the middle of a block
+	}
+	if !w.restart(c) {
+		return
+	}
+	g.maybeCommit(c)
+	for i, n := 0, g.rng.Intn(3); i < n; i++ {
+		g.doReplayOn(c)
+	}
+	if g.rng.Intn(2) == 0 {
+		// duplicate of an accepted acknowledgement on the restarted chain
+		var mine []*pktAckRec
+		for _, a := range g.accAcks {
+			if a.chain == c {
+				mine = append(mine, a)
+			}
+		}
+		if len(mine) > 0 {
+			a := mine[g.rng.Intn(len(mine))]
+			w.ack(a.chain, a.packet, a.ack, a.proof, a.height, a.signer, "dup-after-restart")
+			g.maybeCommit(c)
+		}
+	}
 }
 
 // ---------------------------------------------------------------------------------------------
@@ -661,7 +738,7 @@ func (g *pktGen) doMutateRecv() {
 		if p2.ABIDecode(packet) == nil && p2.String() == s.p.String() {
 			s.recvd = true
 			s.ackBz = out.ackBz
-			g.accRecv = append(g.accRecv, &pktRecvRec{chain: s.dst, packet: packet, proof: proof, height: height, signer: signer})
+			g.accRecv = append(g.accRecv, &pktRecvRec{chain: s.dst, packet: packet, proof: proof, height: height, signer: signer, epoch: s.dst.restarts})
 		}
 	}
 	g.maybeCommit(s.dst)
@@ -915,15 +992,15 @@ func (g *pktGen) doAckConflict() {
 }
 
 func TestC01(t *testing.T) {
-	pktRun(t, "C01", pktWeights{send: 14, relay: 14, ackRelay: 8, replay: 40, commit: 4, update: 4, plant: 4, cbErr: 24})
+	pktRun(t, "C01", pktWeights{send: 14, relay: 14, ackRelay: 8, replay: 40, commit: 4, update: 4, plant: 4, restart: 3, evm: 6, cbErr: 24})
 }
 
 func TestC05(t *testing.T) {
-	pktRun(t, "C05", pktWeights{send: 16, relay: 16, ackRelay: 14, replay: 4, mutateAck: 8, ackConflict: 34, commit: 4, update: 4, plant: 3, cbErr: 30})
+	pktRun(t, "C05", pktWeights{send: 16, relay: 16, ackRelay: 14, replay: 4, mutateAck: 8, ackConflict: 34, commit: 4, update: 4, plant: 3, restart: 3, evm: 8, cbErr: 30})
 }
 
 func TestC02(t *testing.T) {
-	pktRun(t, "C02", pktWeights{send: 14, relay: 8, ackRelay: 8, replay: 2, mutateRecv: 32, mutateAck: 28, ackConflict: 2, commit: 3, update: 3, plant: 3, cbErr: 26})
+	pktRun(t, "C02", pktWeights{send: 14, relay: 8, ackRelay: 8, replay: 2, mutateRecv: 32, mutateAck: 28, ackConflict: 2, commit: 3, update: 3, plant: 3, restart: 2, evm: 30, cbErr: 26})
 }
 
 // pktSwapCase flips the case of the first letter (a name differing only in case).
@@ -937,4 +1014,303 @@ func pktSwapCase(s string) string {
 		}
 	}
 	return s
+}
+
+// ---------------------------------------------------------------------------------------------
+// EVM-secured counterparties: genuine traffic and the forgery families
+
+func (g *pktGen) doEvm() {
+	w := g.w
+	if len(w.evms) == 0 {
+		return
+	}
+	ev := w.evms[g.rng.Intn(len(w.evms))]
+	x := g.rng.Intn(100)
+	if g.id != "C02" {
+		x = g.rng.Intn(60) // mostly genuine traffic outside C02
+	}
+	switch {
+	case x < 12:
+		w.evmSend(ev, int64(1+g.rng.Intn(300)), true)
+	case x < 28:
+		g.evmRelayIn(ev)
+	case x < 38:
+		g.evmSendOut(ev)
+	case x < 50:
+		g.evmRelayAck(ev)
+	case x < 56:
+		w.evmAdvance(ev, uint64(1+g.rng.Intn(3)))
+	case x < 82:
+		g.evmForgeRecv(ev)
+	default:
+		g.evmForgeAck(ev)
+	}
+	g.maybeCommit(ev.host)
+}
+
+func (g *pktGen) evmHeight(h uint64) clienttypes.Height { return clienttypes.NewHeight(0, h) }
+
+func (g *pktGen) evmRelayIn(ev *pktEvm) {
+	w := g.w
+	var pend []*pktEvmPacket
+	for _, ep := range ev.in {
+		if !ep.recvd {
+			pend = append(pend, ep)
+		}
+	}
+	if len(pend) == 0 {
+		w.evmSend(ev, int64(1+g.rng.Intn(300)), true)
+		return
+	}
+	ep := pend[g.rng.Intn(len(pend))]
+	h := w.evmProvable(ev)
+	if ep.at == 0 {
+		ep.at = h
+	}
+	proof := ev.states[h].genuine(ev.contract, ep.slot).json()
+	signer := 0
+	out := w.recv(ev.host, ep.bz, proof, g.evmHeight(h), signer, "evm-genuine-"+ev.kind)
+	if out.ok {
+		ep.recvd = true
+		ep.ackBz = out.ackBz
+		g.accRecv = append(g.accRecv, &pktRecvRec{chain: ev.host, packet: ep.bz, proof: proof, height: g.evmHeight(h), signer: signer, epoch: ev.host.restarts})
+		if g.rng.Intn(2) == 0 {
+			w.recv(ev.host, ep.bz, proof, g.evmHeight(h), signer, "replay-same-block")
+		}
+	}
+}
+
+func (g *pktGen) evmSendOut(ev *pktEvm) {
+	w := g.w
+	cs := w.callSpec(ev.host, ev.host, "n", func(b []byte) { g.rng.Read(b) })
+	s := w.send(ev.host, ev.name, int64(1+g.rng.Intn(300)), cs, 0)
+	if s == nil {
+		return
+	}
+	// the EVM chain "receives" it: the hash of a success acknowledgement appears under the ack slot
+	relayer := ev.host.regAddr[ev.host.accts[0].addr.String()][ev.name]
+	ackBz := w.defAckEnc(0, []byte{}, "", relayer, s.p.FeeOption)
+	slot := pktEvmSlot(host.PacketAcknowledgementKey(s.p.SrcChain, s.p.DstChain, s.p.Sequence))
+	ev.cur[string(ev.contract)].storage[string(slot)] = pktSha(ackBz)
+	ev.cur[string(ev.contract)].nonce++
+	ev.out = append(ev.out, &pktEvmPacket{bz: s.bz, p: s.p, slot: slot, ackBz: ackBz, outward: true})
+	w.r.Count("evm.sendout." + ev.kind)
+}
+
+func (g *pktGen) evmRelayAck(ev *pktEvm) {
+	w := g.w
+	var pend []*pktEvmPacket
+	for _, ep := range ev.out {
+		if !ep.acked {
+			pend = append(pend, ep)
+		}
+	}
+	if len(pend) == 0 {
+		g.evmSendOut(ev)
+		return
+	}
+	ep := pend[g.rng.Intn(len(pend))]
+	h := w.evmProvable(ev)
+	proof := ev.states[h].genuine(ev.contract, ep.slot).json()
+	signer := g.rng.Intn(3)
+	out := w.ack(ev.host, ep.bz, ep.ackBz, proof, g.evmHeight(h), signer, "evm-genuine-"+ev.kind)
+	if out.ok {
+		ep.acked = true
+		g.accAcks = append(g.accAcks, &pktAckRec{chain: ev.host, packet: ep.bz, ack: ep.ackBz, proof: proof, height: g.evmHeight(h), signer: signer})
+		if g.rng.Intn(2) == 0 {
+			w.ack(ev.host, ep.bz, ep.ackBz, proof, g.evmHeight(h), signer, "replay-same-block")
+		}
+	}
+}
+
+func pktFlipHex(rng *rand.Rand, s string) string {
+	b := common.FromHex(s)
+	if len(b) == 0 {
+		return "0x01"
+	}
+	b[rng.Intn(len(b))] ^= byte(1 << uint(rng.Intn(8)))
+	return hexutil.Encode(b)
+}
+
+// evmForge builds a forged / altered proof for (path, value). stored: the value really is in the packet contract's
+// storage (then the alterations concern proof, account fields or height); otherwise the forger tries to "prove" a
+// value the EVM chain never stored. Returns proof, proof height, tag.
+func (g *pktGen) evmForge(ev *pktEvm, path, value []byte, stored bool) ([]byte, clienttypes.Height, string) {
+	w := g.w
+	slot := pktEvmSlot(path)
+	if !stored {
+		switch g.rng.Intn(6) {
+		case 0, 1: // the honest account proof, storage_hash + storage_proof of a trie built by the forger
+			h := w.evmProvable(ev)
+			st := ev.states[h]
+			rec := st.genuine(ev.contract, slot)
+			forged := map[string][]byte{}
+			for k, v := range st.accts[string(ev.contract)].storage {
+				forged[k] = v
+			}
+			forged[string(slot)] = value
+			ft := pktEvmStorageTrie(forged)
+			rec.StorageHash = ft.Hash().Hex()
+			rec.StorageProof = []*pktEvmSP{{Key: hexutil.Encode(slot), Value: hexutil.Encode(value), Proof: pktEvmProve(ft, crypto.Keccak256(slot))}}
+			return rec.json(), g.evmHeight(h), "forged-storage-trie"
+		case 2, 3: // the value is stored by ANOTHER contract with the same code hash
+			ev.cur[string(ev.other)].storage[string(slot)] = value
+			h := w.evmProvable(ev)
+			rec := ev.states[h].genuine(ev.other, slot)
+			if g.rng.Intn(2) == 0 {
+				rec.Address = hexutil.Encode(ev.contract)
+				return rec.json(), g.evmHeight(h), "other-account-readdressed"
+			}
+			return rec.json(), g.evmHeight(h), "other-account"
+		case 4: // genuine proof of another slot of the packet contract
+			h := w.evmProvable(ev)
+			st := ev.states[h]
+			var otherSlot []byte
+			for k, v := range st.accts[string(ev.contract)].storage {
+				if k != string(slot) {
+					otherSlot = []byte(k)
+					if g.rng.Intn(2) == 0 {
+						// make the other slot hold exactly the value, as if it were stored elsewhere
+						_ = v
+					}
+					break
+				}
+			}
+			rec := st.genuine(ev.contract, otherSlot)
+			if g.rng.Intn(2) == 0 {
+				rec.StorageProof[0].Key = hexutil.Encode(slot)
+				return rec.json(), g.evmHeight(h), "other-slot-rekeyed"
+			}
+			return rec.json(), g.evmHeight(h), "other-slot"
+		default: // genuine non-inclusion proof
+			h := w.evmProvable(ev)
+			return ev.states[h].genuine(ev.contract, slot).json(), g.evmHeight(h), "absent"
+		}
+	}
+	h := w.evmProvable(ev)
+	st := ev.states[h]
+	rec := st.genuine(ev.contract, slot)
+	switch g.rng.Intn(12) {
+	case 0:
+		rec.Nonce = hexutil.EncodeUint64(st.accts[string(ev.contract)].nonce + 1)
+		return rec.json(), g.evmHeight(h), "field-nonce"
+	case 1:
+		rec.Balance = "0x1"
+		return rec.json(), g.evmHeight(h), "field-balance"
+	case 2:
+		rec.StorageHash = pktFlipHex(g.rng, rec.StorageHash)
+		return rec.json(), g.evmHeight(h), "field-storage-hash"
+	case 3:
+		rec.CodeHash = pktFlipHex(g.rng, rec.CodeHash)
+		return rec.json(), g.evmHeight(h), "field-code-hash"
+	case 4:
+		i := g.rng.Intn(len(rec.AccountProof))
+		rec.AccountProof[i] = pktFlipHex(g.rng, rec.AccountProof[i])
+		return rec.json(), g.evmHeight(h), "field-account-proof"
+	case 5:
+		i := g.rng.Intn(len(rec.StorageProof[0].Proof))
+		rec.StorageProof[0].Proof[i] = pktFlipHex(g.rng, rec.StorageProof[0].Proof[i])
+		return rec.json(), g.evmHeight(h), "field-storage-proof"
+	case 6:
+		rec.StorageProof[0].Key = pktFlipHex(g.rng, rec.StorageProof[0].Key)
+		return rec.json(), g.evmHeight(h), "field-key"
+	case 7:
+		rec.Address = hexutil.Encode(ev.other)
+		return rec.json(), g.evmHeight(h), "field-address"
+	case 8: // the root of an earlier height, before the value was stored
+		for i := len(ev.heights) - 1; i >= 0; i-- {
+			h0 := ev.heights[i]
+			if _, has := ev.states[h0].accts[string(ev.contract)].storage[string(slot)]; !has {
+				return rec.json(), g.evmHeight(h0), "other-height"
+			}
+		}
+		return rec.json(), g.evmHeight(h + 1), "height+1"
+	case 9:
+		return rec.json(), g.evmHeight(ev.head + 5), "height-above-head"
+	case 10: // sealed and genuine, but inside the confirmation-block window
+		st2 := w.evmAdvance(ev, 1)
+		return st2.genuine(ev.contract, slot).json(), g.evmHeight(st2.height), "height-inside-delay"
+	default:
+		return rec.json(), clienttypes.NewHeight(1, h), "height-revision"
+	}
+}
+
+func (g *pktGen) evmForgeRecv(ev *pktEvm) {
+	w := g.w
+	var pend []*pktEvmPacket
+	for _, ep := range ev.in {
+		if !ep.recvd {
+			pend = append(pend, ep)
+		}
+	}
+	stored := len(pend) > 0 && g.rng.Intn(2) == 0
+	var ep *pktEvmPacket
+	if stored {
+		ep = pend[g.rng.Intn(len(pend))]
+	} else {
+		ep = w.evmSend(ev, int64(1+g.rng.Intn(300)), false) // a packet the EVM chain never sent
+		ev.inSeq--                                          // the sequence stays free for a genuine packet
+		if g.rng.Intn(2) == 0 && len(pend) > 0 {
+			// same triple as a really sent packet, other payload
+			real := pend[g.rng.Intn(len(pend))]
+			p2 := real.p
+			p2.TransferData = append(append([]byte{}, p2.TransferData...), 1)
+			bz, _ := p2.ABIPack()
+			ep = &pktEvmPacket{bz: bz, p: p2, slot: real.slot}
+		}
+	}
+	path := host.PacketCommitmentKey(ep.p.SrcChain, ep.p.DstChain, ep.p.Sequence)
+	var value []byte
+	{
+		var dp packettypes.Packet
+		_ = dp.ABIDecode(ep.bz)
+		enc, _ := dp.ABIPack()
+		value = pktSha(enc)
+	}
+	if !stored {
+		// never stored under this path with this value?
+		if v, has := ev.cur[string(ev.contract)].storage[string(pktEvmSlot(path))]; has && string(v) == string(value) {
+			return
+		}
+	}
+	proof, h, tag := g.evmForge(ev, path, value, stored)
+	out := w.recv(ev.host, ep.bz, proof, h, 0, "evm-"+tag)
+	if !out.ok && (strings.HasPrefix(tag, "field-") || strings.HasPrefix(tag, "height") || tag == "other-height") {
+		w.r.Count("recv.evm-single-alteration.err")
+	}
+	if out.ok && stored {
+		ep.recvd = true
+		ep.ackBz = out.ackBz
+	}
+}
+
+func (g *pktGen) evmForgeAck(ev *pktEvm) {
+	w := g.w
+	var pend []*pktEvmPacket
+	for _, ep := range ev.out {
+		if !ep.acked {
+			pend = append(pend, ep)
+		}
+	}
+	if len(pend) == 0 {
+		g.evmSendOut(ev)
+		return
+	}
+	ep := pend[g.rng.Intn(len(pend))]
+	path := host.PacketAcknowledgementKey(ep.p.SrcChain, ep.p.DstChain, ep.p.Sequence)
+	stored := g.rng.Intn(2) == 0
+	ackBz := ep.ackBz
+	if !stored {
+		// an acknowledgement the EVM chain never wrote: the opposite outcome
+		relayer := ev.host.regAddr[ev.host.accts[0].addr.String()][ev.name]
+		ackBz = w.defAckEnc(1, []byte{}, "forged", relayer, ep.p.FeeOption)
+	}
+	proof, h, tag := g.evmForge(ev, path, pktSha(ackBz), stored)
+	out := w.ack(ev.host, ep.bz, ackBz, proof, h, g.rng.Intn(3), "evm-"+tag)
+	if !out.ok && (strings.HasPrefix(tag, "field-") || strings.HasPrefix(tag, "height") || tag == "other-height") {
+		w.r.Count("ack.evm-single-alteration.err")
+	}
+	if out.ok && stored {
+		ep.acked = true
+	}
 }
